@@ -234,6 +234,10 @@ wrapint wrapint::sdiv(wrapint x) const {
   } else {
     ikos::z_number dividend = get_signed_bignum();
     ikos::z_number divisor = x.get_signed_bignum();
+    if (divisor == -1) {
+      // MIN / -1 = -MIN does not fit in the signed range: it wraps to MIN
+      return -(*this);
+    }
     ikos::z_number r = dividend / divisor;
     return wrapint(r, get_bitwidth());
   }
